@@ -1,0 +1,20 @@
+//go:build verif
+
+// Contracts for the data-path lock (C06: a second nsqd pointed at a data path that is in use refuses to
+// start), checked by nsqvc. Comment-only file. Ghosts gDirOpen*/gFlock*: .trusted/gmeta.spec.
+
+package dirlock
+
+// LOCK_EX|LOCK_NB = 2|4 (linux): exclusive, and fail instead of waiting for the holder.
+//@ fn gLockExNb() int := 6
+
+//@ func (l *DirLock) Lock() error
+//@   props C06
+//@   nochan
+//@   requires l != nil
+//@   ensures[opens-the-data-path] gDirOpens == old(gDirOpens) + 1 && gDirOpenName == old(l.dir)
+//@   ensures[open-error-returned] gDirOpenErr != nil ==> result == gDirOpenErr && gFlocks == old(gFlocks)
+//@   ensures[exclusive-nonblocking-flock] gDirOpenErr == nil ==> gFlocks == old(gFlocks) + 1 && gFlockHow == gLockExNb() && gFlockFd == wrapI64(gFdOf(gDirOpenFile))
+//@   ensures[flock-error-propagated] gDirOpenErr == nil ==> ((result == nil) <==> (gFlockErr == nil))
+//@   ensures[holds-the-file] gDirOpenErr == nil ==> l.f == gDirOpenFile
+//@   modifies l.f, gDirOpens, gDirOpenName, gDirOpenFile, gDirOpenErr, gFlocks, gFlockFd, gFlockHow, gFlockErr
